@@ -66,6 +66,12 @@ def message_pool(remote_as, r=None):
         ('update_aspath4', frame(2, update_body(attrs=bytes.fromhex('40010100' '4002060201' '0000fde9' '4003040a000001')))),
         ('update_aspath2', frame(2, update_body(attrs=bytes.fromhex('40010100' '4002040201' 'fde9' '4003040a000001')))),
         ('update_eor', frame(2, update_body(nlri=b'', attrs=b''))),
+        # the largest message the RFC allows (4096 octets): a well-formed UPDATE padded by an unknown optional transitive
+        # attribute with extended length, and a malformed one of the same size
+        ('update_max4096', frame(2, update_body(nlri=b'', attrs=bytes.fromhex('40010100' '400200' '4003040a000001')
+                                                 + b'\xd0\xfa' + struct.pack('!H', 4055) + b'\x5a' * 4055))),
+        ('update_max4096_bad', frame(2, update_body(nlri=b'', attrs=bytes.fromhex('40010109' '400200' '4003040a000001')
+                                                     + b'\xd0\xfa' + struct.pack('!H', 4055) + b'\x5a' * 4055))),
         ('update_bad_origin', frame(2, update_body(attrs=bytes.fromhex('40010103')))),
         ('update_bad_prefix', frame(2, update_body(nlri=b'\x21\x0a\x00\x00\x00\x00'))),
         ('update_short', frame(2, b'\x00')),
